@@ -51,6 +51,7 @@ type C13Plan struct {
 	Remote    bool   `json:"remote,omitempty"`
 	PivOutput string `json:"piv_output,omitempty"`
 	PivExit   int    `json:"piv_exit,omitempty"`
+	BigCert   bool   `json:"big_cert,omitempty"` // the served slot certificate is a large RSA-4096 one
 }
 
 var c13Ops = []string{"list", "sign", "add", "remove", "removeall", "lock", "unlock", "signers", "addhardcert", "addhardcert_legacy",
@@ -108,6 +109,7 @@ func genC13(r *sim.Rng, tier string) any {
 		p.Remote = r.Bool(0.25)
 		p.PivOutput, p.PivExit = genPivOutput(r)
 	}
+	p.BigCert = r.Bool(0.3)
 	n := r.Range(2, 14)
 	for i := 0; i < n; i++ {
 		op := WOp{Op: c13Ops[r.Intn(len(c13Ops))]}
@@ -271,6 +273,9 @@ func sessionC13(t *testing.T, raw json.RawMessage) *sim.Outcome {
 	}
 	keys.ResetRSA()
 	st := stubFixture()
+	if p.BigCert {
+		st.cert, _ = x509.ParseCertificate(bigCertDER())
+	}
 	var served yubiagent.YubiAgent = st
 	var pivLog string
 	if p.Slots == "real" {
